@@ -163,6 +163,8 @@ def check():
         samples=[cases[len(cases) // 2], cases[7]],
     ))
     rep.assumptions = ["no symbolic links (D12); path normalisation is lexical in the model"]
+    from cli_engine import cli_layer
+    cli_layer(rep, "C11", workdir("C11-cli"))
     rep.finish()
 
 
